@@ -23,8 +23,9 @@
        and every slot that takes part (effective ratio > 0) gets at least its minimum (DistMin).
        Parts of slots that take part are never negative for total >= 0 (DistNonNeg).  A trailing
        slot with effective ratio 0 receives "whatever remains" (code: `distributed =
-       total_remaining`), which is negative after a binding minimum - the docstring is silent about
-       zero-ratio slots, so this is recorded as an observation, not demanded.
+       max(0, total_remaining)`; 9.10.0 passed a negative remainder on, which crashed tables below
+       their structural minimum - C14, fix: d810ee0) - the docstring is silent about the minimum of
+       a zero-ratio slot, so that is recorded as an observation, not demanded.
    ratio_reduce      the docstring's "sum to total" can only mean the amount taken away: every value is
        reduced by between 0 and its maximum (ReduceBounds - hence never below zero when maximum <=
        value), the total taken away never exceeds `total` (ReduceAtMost) and equals it when no
@@ -77,7 +78,9 @@ MinOf(mins, i) == IF mins = <<>> THEN 0 ELSE mins[i]
 RECURSIVE DistLoop(_, _, _, _, _, _)
 DistLoop(rs, mins, i, rem, tr, acc) ==
     IF i > Len(rs) THEN acc
-    ELSE LET d == IF tr > 0 THEN Max2(MinOf(mins, i), Ceil(rs[i] * rem, tr)) ELSE rem
+    \* once the ratios are used up the slot takes what is left - never less than nothing (after the fix: commit;
+    \* 9.10.0 took `rem` as it was and handed a negative width to a trailing zero-ratio column)
+    ELSE LET d == IF tr > 0 THEN Max2(MinOf(mins, i), Ceil(rs[i] * rem, tr)) ELSE Max2(0, rem)
          IN DistLoop(rs, mins, i + 1, rem - d, tr - rs[i], Append(acc, d))
 
 \* [ok |-> FALSE] = the code's `assert total_ratio > 0` fails
